@@ -199,86 +199,128 @@ let () =
         !good && int_of_n rz.rcode = 0 && List.length rz.rin = 2 && not rz.rfail in
     Printf.sprintf "%s %d" (hex_of_bytes out) (if ok then 1 else 0))
 
-(* LZMA2 chunk trace: parse a raw LZMA2 stream chunk by chunk, trace the symbols of every LZMA chunk with the
-   specification decoder, rebuild the chunk list and serialise it with the model encoder (chunks_bytes).
-   "ok" = the model reproduces the input bytes exactly and the expansion is returned. *)
+(* LZMA2 chunk trace: parse a raw LZMA2 stream chunk by chunk starting at [start], trace the symbols of every LZMA
+   chunk with the specification decoder and rebuild the chunk list.  Returns (error, chunks, position of the end byte,
+   final model state, statistics). *)
+let trace_lzma2 (inp : int array) (start : int) =
+  let n = Array.length inp in
+  let dict = n_of_hex "ffffffff" in
+  let sub i l = List.init l (fun k -> n_of_int inp.(i + k)) in
+  let s = ref (norm (l2_init [] [])) and pos = ref start and chunks = ref [] and err = ref "" in
+  let nl = ref 0 and nm = ref 0 and ns = ref 0 and nr = ref 0 and nu = ref 0 and nk = ref 0 in
+  (try
+    while !err = "" && !pos < n && inp.(!pos) <> 0 do
+      let c = inp.(!pos) in
+      if c < 0x80 then begin
+        if c > 2 then err := "control" else begin
+          let sz = inp.(!pos + 1) * 256 + inp.(!pos + 2) + 1 in
+          let ch = KU (c = 1, sub (!pos + 3) sz) in
+          chunks := ch :: !chunks; s := norm (chunk_after !s ch []); pos := !pos + 3 + sz; incr nu
+        end
+      end else begin
+        let m = (c lsr 5) land 3 in
+        let usize = ((c land 31) lsl 16) + inp.(!pos + 1) * 256 + inp.(!pos + 2) + 1 in
+        let csize = inp.(!pos + 3) * 256 + inp.(!pos + 4) + 1 in
+        let hl = if m >= 2 then 6 else 5 in
+        let pbyte = if m >= 2 then inp.(!pos + 5) else 0 in
+        (match kl_props !s (n_of_int m) (n_of_int pbyte) with
+         | None -> err := "props"
+         | Some pr ->
+           let z0 = kl_start !s (n_of_int m) (n_of_int usize) in
+           let payload = sub (!pos + hl) csize in
+           (match lz_start payload z0.zps z0.zstate z0.rep0 z0.rep1 z0.rep2 z0.rep3 z0.zhist z0.zleft with
+            | Inr _ -> err := "rcinit"
+            | Inl zs ->
+              let classify z z' =
+                let st = z.zstate in
+                let pos_state = N.modulo z.zhist.hlen (N.pow (n_of_int 2) pr.pb) in
+                let ((mm, r), ps) = rc_bit z.zrc z.zps (p_IS_MATCH st pos_state) in
+                if not mm then SLit (List.hd z'.zout)
+                else
+                  let ((isrep, r), ps) = rc_bit r ps (p_IS_REP st) in
+                  let ln = N.sub z'.zoutn z.zoutn in
+                  if not isrep then SMatch (z'.rep0, ln)
+                  else
+                    let ((b0, r), ps) = rc_bit r ps (p_IS_REP0 st) in
+                    if not b0 then
+                      (let ((lg, _), _) = rc_bit r ps (p_IS_REP0_LONG st pos_state) in
+                       if not lg then SShortRep else SLongRep (N0, ln))
+                    else
+                      let ((b1, r), ps) = rc_bit r ps (p_IS_REP1 st) in
+                      if not b1 then SLongRep (n_of_int 1, ln)
+                      else let ((b2, _), _) = rc_bit r ps (p_IS_REP2 st) in
+                        SLongRep ((if b2 then n_of_int 3 else n_of_int 2), ln) in
+              let syms = ref [] and z = ref zs and fin = ref "" in
+              while !fin = "" do
+                let z' = symbol pr dict false !z in
+                (match z'.zstatus with
+                 | Running -> syms := classify !z z' :: !syms; z := z'
+                 | Finished -> z := z'; fin := "fin"
+                 | _ -> z := z'; fin := "err")
+              done;
+              if !fin <> "fin" then err := "lzma"
+              else begin
+                let syms = List.rev !syms in
+                List.iter (function SLit _ -> incr nl | SMatch _ -> incr nm | SShortRep -> incr ns | SLongRep _ -> incr nr) syms;
+                let ch = KL (n_of_int m, n_of_int pbyte, syms) in
+                chunks := ch :: !chunks; s := norm (chunk_after !s ch []); pos := !pos + hl + csize; incr nk
+              end))
+      end
+    done;
+    if !err = "" && !pos >= n then err := "noend"
+  with Invalid_argument _ -> err := "short");
+  (!err, List.rev !chunks, !pos, !s,
+   Printf.sprintf "lzma=%d,stored=%d,lit=%d,match=%d,shortrep=%d,longrep=%d" !nk !nu !nl !nm !ns !nr)
+
 let () =
   reg "lzma2syms" (fun a -> match a with
     | [hx] ->
       let inp = Array.of_list (List.map int_of_n (bytes_of_hex hx)) in
       let n = Array.length inp in
-      let dict = n_of_hex "ffffffff" in
-      let sub i l = List.init l (fun k -> n_of_int inp.(i + k)) in
-      let s = ref (norm (l2_init [] [])) and pos = ref 0 and chunks = ref [] and err = ref "" in
-      let nl = ref 0 and nm = ref 0 and ns = ref 0 and nr = ref 0 and nu = ref 0 and nk = ref 0 in
-      (try
-        while !err = "" && !pos < n && inp.(!pos) <> 0 do
-          let c = inp.(!pos) in
-          if c < 0x80 then begin
-            if c > 2 then err := "control" else begin
-              let sz = inp.(!pos + 1) * 256 + inp.(!pos + 2) + 1 in
-              let ch = KU (c = 1, sub (!pos + 3) sz) in
-              chunks := ch :: !chunks; s := norm (chunk_after !s ch []); pos := !pos + 3 + sz; incr nu
-            end
-          end else begin
-            let m = (c lsr 5) land 3 in
-            let usize = ((c land 31) lsl 16) + inp.(!pos + 1) * 256 + inp.(!pos + 2) + 1 in
-            let csize = inp.(!pos + 3) * 256 + inp.(!pos + 4) + 1 in
-            let hl = if m >= 2 then 6 else 5 in
-            let pbyte = if m >= 2 then inp.(!pos + 5) else 0 in
-            (match kl_props !s (n_of_int m) (n_of_int pbyte) with
-             | None -> err := "props"
-             | Some pr ->
-               let z0 = kl_start !s (n_of_int m) (n_of_int usize) in
-               let payload = sub (!pos + hl) csize in
-               (match lz_start payload z0.zps z0.zstate z0.rep0 z0.rep1 z0.rep2 z0.rep3 z0.zhist z0.zleft with
-                | Inr _ -> err := "rcinit"
-                | Inl zs ->
-                  let classify z z' =
-                    let st = z.zstate in
-                    let pos_state = N.modulo z.zhist.hlen (N.pow (n_of_int 2) pr.pb) in
-                    let ((mm, r), ps) = rc_bit z.zrc z.zps (p_IS_MATCH st pos_state) in
-                    if not mm then SLit (List.hd z'.zout)
-                    else
-                      let ((isrep, r), ps) = rc_bit r ps (p_IS_REP st) in
-                      let ln = N.sub z'.zoutn z.zoutn in
-                      if not isrep then SMatch (z'.rep0, ln)
-                      else
-                        let ((b0, r), ps) = rc_bit r ps (p_IS_REP0 st) in
-                        if not b0 then
-                          (let ((lg, _), _) = rc_bit r ps (p_IS_REP0_LONG st pos_state) in
-                           if not lg then SShortRep else SLongRep (N0, ln))
-                        else
-                          let ((b1, r), ps) = rc_bit r ps (p_IS_REP1 st) in
-                          if not b1 then SLongRep (n_of_int 1, ln)
-                          else let ((b2, _), _) = rc_bit r ps (p_IS_REP2 st) in
-                            SLongRep ((if b2 then n_of_int 3 else n_of_int 2), ln) in
-                  let syms = ref [] and z = ref zs and fin = ref "" in
-                  while !fin = "" do
-                    let z' = symbol pr dict false !z in
-                    (match z'.zstatus with
-                     | Running -> syms := classify !z z' :: !syms; z := z'
-                     | Finished -> z := z'; fin := "fin"
-                     | _ -> z := z'; fin := "err")
-                  done;
-                  if !fin <> "fin" then err := "lzma"
-                  else begin
-                    let syms = List.rev !syms in
-                    List.iter (function SLit _ -> incr nl | SMatch _ -> incr nm | SShortRep -> incr ns | SLongRep _ -> incr nr) syms;
-                    let ch = KL (n_of_int m, n_of_int pbyte, syms) in
-                    chunks := ch :: !chunks; s := norm (chunk_after !s ch []); pos := !pos + hl + csize; incr nk
-                  end))
-          end
-        done
-      with Invalid_argument _ -> err := "short");
-      if !err <> "" then "parsefail " ^ !err
+      let (err, cs, pos, s, stats) = trace_lzma2 inp 0 in
+      if err <> "" then "parsefail " ^ err
       else begin
-        let cs = List.rev !chunks in
         let out = chunks_bytes (norm (l2_init [] [])) cs @ [N0] in
-        let same = (List.map int_of_n out = Array.to_list (Array.sub inp 0 (min n (!pos + 1)))) && !pos + 1 = n in
-        Printf.sprintf "%s %d lzma=%d,stored=%d,lit=%d,match=%d,shortrep=%d,longrep=%d %s"
-          (if same then "ok" else "diff") (List.length out) !nk !nu !nl !nm !ns !nr (hex_of_bytes (List.rev (!s).l2out))
+        let same = (List.map int_of_n out = Array.to_list (Array.sub inp 0 (min n (pos + 1)))) && pos + 1 = n in
+        Printf.sprintf "%s %d %s %s" (if same then "ok" else "diff") (List.length out) stats (hex_of_bytes (List.rev s.l2out))
       end
+    | _ -> "ERR")
+
+(* .xz container trace (single Stream, plain LZMA2 chain, Block Headers without size fields): rebuild the block
+   specifications from the real file and serialise them with the model encoder (stream_bytes) *)
+let () =
+  reg "xzsyms" (fun a -> match a with
+    | [hx] ->
+      let inp = Array.of_list (List.map int_of_n (bytes_of_hex hx)) in
+      let n = Array.length inp in
+      (try
+        let check = inp.(7) in
+        let pos = ref 12 and blocks = ref [] and err = ref "" and data = Buffer.create 1024 and stats = ref [] in
+        while !err = "" && inp.(!pos) <> 0 do
+          if inp.(!pos) <> 2 || inp.(!pos + 1) <> 0 || inp.(!pos + 2) <> 0x21 then err := "header-shape"
+          else begin
+            let db = inp.(!pos + 4) in
+            let (e, cs, p2, s, st) = trace_lzma2 inp (!pos + 12) in
+            if e <> "" then err := "payload " ^ e
+            else begin
+              blocks := { b_db = n_of_int db; b_chunks = cs } :: !blocks; stats := st :: !stats;
+              Buffer.add_string data (let h = hex_of_bytes (List.rev s.l2out) in if h = "-" then "" else h);
+              let plen = p2 + 1 - (!pos + 12) in
+              let padn = (4 - plen mod 4) mod 4 in
+              let csz = (match check with 0 -> 0 | 1 -> 4 | 4 -> 8 | 10 -> 32 | _ -> 0) in
+              pos := p2 + 1 + padn + csz
+            end
+          end
+        done;
+        if !err <> "" then "parsefail " ^ !err
+        else begin
+          let bs = List.rev !blocks in
+          let out = stream_bytes (n_of_int check) bs in
+          let same = (List.map int_of_n out = Array.to_list inp) in
+          Printf.sprintf "%s %d blocks=%d;%s %s" (if same then "ok" else "diff") n (List.length bs)
+            (String.concat ";" (List.rev !stats)) (let d = Buffer.contents data in if d = "" then "-" else d)
+        end
+      with Invalid_argument _ -> "parsefail short")
     | _ -> "ERR")
 
 (* LZMA symbol trace: decode a raw LZMA1 stream (end marker) with the specification decoder one symbol at a time,
